@@ -322,7 +322,7 @@ func runC12(tier, replay string) {
 	if tier == "thorough" {
 		confs = append(confs,
 			conf{"precedence-depth3", prCfg(`{"x"}`, `{"||","&&","==","+","*"}`, `{"-"}`, `{}`, 3, false, false)},
-			conf{"gluing-depth3", prCfg(`{"x"}`, `{"-","/","<","&"}`, `{"-","*","&","^","<-"}`, `{"sel"}`, 3, false, false)})
+			conf{"gluing-depth3", prCfg(`{"x"}`, `{"-","/","<"}`, `{"-","*","&","^","<-"}`, `{"sel"}`, 3, false, false)})
 	}
 	var states, transitions, total int64
 	for _, c := range confs {
@@ -574,4 +574,3 @@ func prDiffKind(a, b string) string {
 	}
 	return "line-structure"
 }
-
